@@ -12,6 +12,7 @@ CONSTANTS
   Leeways <- None_
   Deviations <- DevF1
   Variants <- Mech
+  Guests = FALSE
   TagTest = "isnone"
   BoxForm = "minmax"
 CONSTRAINT Depth9
